@@ -171,6 +171,36 @@ def unpack (endian : Char) : List Char → List Nat → Except Err (List Val)
 
 end Struct
 
+/-- The value has the Python type the code expects and, for a float, a pattern that fits the code's width. -/
+def valTyped (c : Char) (v : Val) : Bool :=
+  match structKindSize c, v with
+  | some (.float, n), .flt p => p < 2 ^ (8 * n)
+  | some (.sint, _), .int _ => true
+  | some (.uint, _), .int _ => true
+  | _, _ => false
+
+/-- Not a NaN pattern at the code's width (NaN payloads are outside the property: "NaN-free"). -/
+def valFinite (c : Char) (v : Val) : Bool :=
+  match structKindSize c, v with
+  | some (.float, n), .flt p => !Struct.isNaN n p
+  | _, .nan => false
+  | _, _ => true
+
+def valsTyped : List Char → List Val → Bool
+  | c :: cs, v :: vs => valTyped c v && valsTyped cs vs
+  | _, _ => true
+
+def valsFinite : List Char → List Val → Bool
+  | c :: cs, v :: vs => valFinite c v && valsFinite cs vs
+  | _, _ => true
+
+/-- Two specs denote the same layout: same kind and size, and the same byte order unless the size is one byte. -/
+def Spec.same (a b : Spec) : Bool := a.kind = b.kind ∧ a.size = b.size ∧ (a.size = 1 ∨ a.order = b.order)
+
+def specEquiv : Option Spec → Option Spec → Bool
+  | some a, some b => a.same b
+  | _, _ => false
+
 /-! ## bits ↔ bytes -/
 
 /-- `BitStore.frombytes(d)`: eight bits per byte, MSB first. -/
@@ -255,6 +285,27 @@ def mkDtype (name : String) (len : Nat) : Except Err DType :=
 def DefName.signed : DefName → Bool
   | .int | .intbe | .intle => true
   | _ => false
+
+/-- What a dtype means according to bitstring's documentation of the integer / float dtypes: `uint`, `int`, `float`
+    and the `…be` forms are most-significant-byte first, the `…le` forms least-significant-byte first. -/
+def DType.meaning (d : DType) : Spec :=
+  ⟨(match d.defn with
+    | .uint | .uintbe | .uintle => .uint
+    | .int | .intbe | .intle => .sint
+    | .float | .floatle => .float),
+   d.length / 8,
+   (match d.defn with
+    | .uintle | .intle | .floatle => .little
+    | _ => .big)⟩
+
+/-- SPEC: the bitstring dtype that denotes a struct layout (one-byte integers are plain `int8` / `uint8`). -/
+def nativeDtype (s : Spec) : DType :=
+  ⟨(match s.kind, s.order with
+    | .sint, o => if s.size = 1 then .int else if o = .little then .intle else .intbe
+    | .uint, o => if s.size = 1 then .uint else if o = .little then .uintle else .uintbe
+    | .float, .little => .floatle
+    | .float, .big => .float),
+   8 * s.size⟩
 
 /-! ## setters (value → bits) -/
 
@@ -391,6 +442,15 @@ def replacements (endian : Char) : List (Char × String × Nat) :=
   else if endian = '<' then Gen.Struct.replacementsLE
   else Gen.Struct.replacementsBE
 
+/-- The meaning of the table entry the code looks up for `endian`, `code` (whole-byte dtypes only). -/
+def tableSpec (endian code : Char) : Option Spec :=
+  match (replacements endian).lookup code with
+  | some (name, len) =>
+    match mkDtype name len with
+    | .ok d => if d.length % 8 = 0 ∧ d.length ≠ 0 then some d.meaning else none
+    | .error _ => none
+  | none => none
+
 /-- `structparser` (utils.py:65): one `(name, length)` token per expanded code (`KeyError` if a code is missing
     from the table). -/
 def structparser (endian : Char) : List Char → Except Err (List (String × Nat))
@@ -400,15 +460,18 @@ def structparser (endian : Char) : List Char → Except Err (List (String × Nat
     | none => .error (.internal "KeyError")
     | some t => (structparser endian cs).map (t :: ·)
 
-/-- `parse_single_struct_token` (utils.py:104): `none` = no match of SINGLE_STRUCT_PACK_RE. -/
+/-- `parse_single_struct_token` (utils.py:104) on the two characters of its argument:
+    `none` = no match of SINGLE_STRUCT_PACK_RE. -/
+def singleStructToken (e c : Char) : Option (Except Err (String × Nat)) :=
+  if Gen.Struct.endianAlphabet.contains e ∧ Gen.Struct.codeAlphabet.contains c then
+    match (replacements e).lookup c with
+    | none => some (.error (.internal "KeyError"))
+    | some t => some (.ok t)
+  else none
+
 def parseSingleStructToken (s : String) : Option (Except Err (String × Nat)) :=
   match s.toList with
-  | [e, c] =>
-    if Gen.Struct.endianAlphabet.contains e ∧ Gen.Struct.codeAlphabet.contains c then
-      match (replacements e).lookup c with
-      | none => some (.error (.internal "KeyError"))
-      | some t => some (.ok t)
-    else none
+  | [e, c] => singleStructToken e c
   | _ => none
 
 /-! ## pack / unpack -/
@@ -637,7 +700,7 @@ def arrayArrayTobytes (tc : Char) (itemsize : Nat) : List Val → Except Err (Li
     `parse_single_struct_token('=' + typecode)`, `dtype_register.get_dtype(*name_value)`, then
     `self._dtype.name != other_dtype.name or self._dtype.length != other_dtype.length`. -/
 def arrayAccepts (d : DType) (tc : Char) : Bool :=
-  match parseSingleStructToken (String.ofList ['=', tc]) with
+  match singleStructToken '=' tc with
   | some (.ok (name, len)) =>
     match mkDtype name len with
     | .ok other => d.defn = other.defn ∧ d.length = other.length
